@@ -232,6 +232,18 @@ impl Rewriter {
         let Expr::MethodCall(mc) = it else { return None };
         let line = e.span().start().line;
         let body: Vec<Stmt> = fl.body.stmts.clone();
+        if mc.method == "iter" && mc.args.is_empty() && self.on("R-iterref") && is_place(&mc.receiver) {
+            // `for pat in X.iter()` over a slice/Vec: index loop in order (slice iteration order)
+            let place = strip_paren(&mc.receiver).clone();
+            let idx = self.fresh("k");
+            let mut used = false;
+            let bind = bind_elem(&fl.pat, &place, &idx, "iter", &mut used);
+            if used {
+                self.record("R-refpat", line, &fl.pat, &bind);
+            }
+            let lp: Expr = parse_quote!( for #idx in 0..#place.len() { #bind #(#body)* } );
+            return Some(("R-iterref".into(), lp));
+        }
         if mc.method == "enumerate" && mc.args.is_empty() && self.on("R-enum") {
             let (kind, base) = self.iter_source(&mc.receiver)?;
             let Pat::Tuple(pt) = pat_inner(&fl.pat) else { return None };
@@ -509,8 +521,7 @@ impl Rewriter {
     // ---- R-index: X[i] on a foreign container named in the unit's index map -----------------
     fn r_index(&mut self, e: &Expr) -> Option<Expr> {
         let Expr::Index(ix) = e else { return None };
-        let Expr::Path(pth) = strip_paren(&ix.expr) else { return None };
-        let id = pth.path.get_ident()?.to_string();
+        let id = txt(strip_paren(&ix.expr)).replace(' ', "");
         let f = self.index_map.get(&id)?;
         let f = Ident::new(f, proc_macro2::Span::call_site());
         let base = &ix.expr;
@@ -700,6 +711,63 @@ impl Rewriter {
         Some(parse_quote!( nd_row_assign(&mut #a, #k, #v) ))
     }
 
+    // ---- R-samplezip: D.sample_iter(&mut R).zip(Y).map(|(x, e)| body).collect() ----------------
+    /// `sample_iter` yields `D.sample(rng)` repeatedly (rand docs); `zip` stops at the end of Y but only
+    /// after drawing one more item from the first iterator (`Zip::next` is `a.next()?; b.next()?`), so the
+    /// generator is advanced len(Y) + 1 times: the trailing draw is kept in the desugaring.
+    fn r_samplezip(&mut self, e: &Expr) -> Option<Expr> {
+        let Expr::MethodCall(mc) = e else { return None };
+        if mc.method != "collect" || !mc.args.is_empty() {
+            return None;
+        }
+        let Expr::MethodCall(mp) = strip_paren(&mc.receiver) else { return None };
+        if mp.method != "map" || mp.args.len() != 1 {
+            return None;
+        }
+        let Expr::Closure(cl) = &mp.args[0] else { return None };
+        if cl.inputs.len() != 1 {
+            return None;
+        }
+        let Pat::Tuple(pt) = pat_inner(&cl.inputs[0]) else { return None };
+        if pt.elems.len() != 2 {
+            return None;
+        }
+        let Expr::MethodCall(zp) = strip_paren(&mp.receiver) else { return None };
+        if zp.method != "zip" || zp.args.len() != 1 {
+            return None;
+        }
+        let y = strip_paren(&zp.args[0]);
+        if !is_place(y) {
+            return None;
+        }
+        let Expr::MethodCall(si) = strip_paren(&zp.receiver) else { return None };
+        if si.method != "sample_iter" || si.args.len() != 1 {
+            return None;
+        }
+        let d = &si.receiver;
+        if !is_place(d) {
+            return None;
+        }
+        let rng = &si.args[0];
+        let out = self.fresh("out");
+        let idx = self.fresh("k");
+        let xp = pat_inner(&pt.elems[0]).clone();
+        let ep = pat_inner(&pt.elems[1]).clone();
+        let (stmts, tail) = closure_body_stmts(&cl.body);
+        let tail = tail?;
+        Some(parse_quote!({
+            let mut #out = Vec::new();
+            for #idx in 0..#y.len() {
+                let #xp = #d.sample(#rng);
+                let #ep = &#y[#idx];
+                #(#stmts)*
+                #out.push(#tail);
+            }
+            let _ = #d.sample(#rng);
+            #out
+        }))
+    }
+
     // ---- R-sampleiter: (&mut rng).sample_iter(D).take(n).collect() ----------------------
     fn r_sampleiter(&mut self, e: &Expr) -> Option<Expr> {
         let Expr::MethodCall(mc) = e else { return None };
@@ -795,6 +863,13 @@ impl VisitMut for Rewriter {
         if self.on("R-par") {
             self.r_par(e);
         }
+        if self.on("R-samplezip") {
+            if let Some(n) = self.r_samplezip(e) {
+                self.record("R-samplezip", line, e, &n);
+                *e = n;
+                return;
+            }
+        }
         if self.on("R-sampleiter") {
             if let Some(n) = self.r_sampleiter(e) {
                 self.record("R-sampleiter", line, e, &n);
@@ -809,7 +884,7 @@ impl VisitMut for Rewriter {
                 return;
             }
         }
-        if self.on("R-enum") || self.on("R-zip") {
+        if self.on("R-enum") || self.on("R-zip") || self.on("R-iterref") {
             if let Some((rule, n)) = self.r_forloop(e) {
                 self.record(&rule, line, e, &n);
                 *e = n;
@@ -941,6 +1016,8 @@ pub fn selftest() -> i32 {
         ("{ let (a, b) = xs.into_iter().fold((vec![], vec![]), |(mut a, mut b), (w, v)| { a.push(w); b.push(v); (a, b) }); }", &["R-fold"], "let mut __vx_acc1 = (vec ! [] , vec ! []) ; for __vx_x1 in xs { let (mut a , mut b) = __vx_acc1 ; let (w , v) = __vx_x1 ; a . push (w) ; b . push (v) ; __vx_acc1 = (a , b) ; } __vx_acc1", &["R-fold"]),
         ("{ let s = row.iter().map(|v| (v - cm) * (v - cm)).sum::<f32>() / n; }", &["R-mapsum"], "let mut __vx_sum1 = vx_sum_zero () ; for __vx_k1 in 0 .. row . len () { let v = & row [__vx_k1] ; __vx_sum1 = __vx_sum1 + (v - cm) * (v - cm) ; } __vx_sum1", &["R-mapsum"]),
         ("{ d.as_slice_mut().unwrap().sort_by(|a, b| c(a, b)); }", &["R-sortby"], "{ let __vx_cmp1 = | a , b | c (a , b) ; slice_sort_by (d . as_slice_mut () . unwrap () , __vx_cmp1) ; }", &["R-sortby"]),
+        ("{ for &x in position.iter() { sum = sum + x * x } }", &["R-iterref"], "for __vx_k1 in 0 .. position . len () { let x = position [__vx_k1] ; sum = sum + x * x }", &["R-refpat", "R-iterref"]),
+        ("{ normal.sample_iter(&mut self.rng).zip(current).map(|(x, eps)| x + *eps).collect() }", &["R-samplezip"], "for __vx_k1 in 0 .. current . len () { let x = normal . sample (& mut self . rng) ; let eps = & current [__vx_k1] ; __vx_out1 . push (x + * eps) ; } let _ = normal . sample (& mut self . rng) ; __vx_out1", &["R-samplezip"]),
         // nothing enabled: nothing changes
         ("{ (0..n).for_each(|i| v[i] = 0.5); }", &[], "(0 .. n) . for_each (| i | v [i] = 0.5) ;", &[]),
     ];
